@@ -10,6 +10,10 @@ pub mod c04;
 pub mod c05;
 pub mod c06;
 pub mod manager;
+pub mod c07;
+pub mod c08;
+pub mod c09;
+pub mod conn;
 pub mod c13;
 pub mod c14;
 pub mod selftest;
@@ -27,6 +31,9 @@ pub const REGISTRY: &[(&str, &str, fn(&mut Ctx))] = &[
     ("C04", "exploration", c04::run),
     ("C05", "model_checking", c05::run),
     ("C06", "model_checking", c06::run),
+    ("C07", "model_checking", c07::run),
+    ("C08", "model_checking", c08::run),
+    ("C09", "model_checking", c09::run),
     ("C13", "model_checking", c13::run),
     ("C14", "model_checking", c14::run),
     ("C15", "model_checking", c15::run),
@@ -43,6 +50,7 @@ pub fn replay(id: &str, case: &Value) -> Result<String, String> {
         "C03" => c03::replay(case),
         "C04" => c04::replay(case),
         "C05" | "C06" => manager::replay(case),
+        "C07" | "C08" | "C09" => conn::replay(case),
         "C13" => c13::replay(case),
         "C14" => c14::replay(case),
         "C15" => c15::replay(case),
